@@ -507,6 +507,64 @@ let run (type a) (k : a c01_ops) (parse : string -> a) (show : a -> string)
     (obs (sv (c01_vec_inplace_self k k.c01_add x)) (sv (c01_vec_inplace_self k k.c01_sub x))
        (b3 (c01_vec_inplace_self k axpy x) (c01_vdotT k x x) (c01_vdot k x x) (c01_veq k x x)),
      obs (sv (c01s_vadd k x x)) (sv (c01s_vsub k x x)) (b3 (c01s_vadd k x (c01s_vscale k s x)) (c01s_dot k x x) (c01s_hdot k x x) true))
+  (* ---------------------------------------------------------------- round 6: assignment / conversion INTO AN EXISTING OBJECT.
+     t0 = what the target held before (for DynamicMatrix / DynamicVector targets of the shape p = 100*rows + cols, resp. size p).
+     model: the assignment path of the C++ overload that is selected; spec: the target holds the source's entries and shape *)
+  | "xasgm" ->
+    let s = take1 () in
+    let dims m = Printf.sprintf "%dx%d" (List.length m) (match m with [] -> 0 | r0 :: _ -> List.length r0) in
+    let zf = c01_param_diag_assign_zerofill in
+    (match rep with
+     | "FM" | "DM" ->
+       let (r0, c0) = if rep = "DM" then (p / 100, p mod 100) else (r, c) in
+       let t0 = takem r0 c0 in
+       let dense src srcspec =
+         let m = (match rep, rep2 with
+           | "FM", ("FM" | "TF") | "DM", ("DM" | "TD") -> c01_copy_assign t0 src        (* same class: defaulted copy / move assignment *)
+           | "FM", "XF" -> c01_fm_assign_rows k t0 src                                   (* FieldMatrix over another field *)
+           | "FM", _ -> c01_assign_dense_into k t0 src                                   (* generic DenseMatrixAssigner *)
+           | _, _ -> c01_dm_assign_dense k t0 src) in                                    (* DynamicMatrix: resize + zero rows + assigner *)
+         (obs (sm m) (sm src) (dims m), obs (sm srcspec) (sm srcspec) (Printf.sprintf "%dx%d" r (if r = 0 then 0 else c))) in
+       (match rep2 with
+        | "K" -> let m = c01_mfill t0 s and sp = List.map (List.map (fun _ -> s)) t0 in
+          (obs (sm m) (show s) (dims m), obs (sm sp) (show s) (Printf.sprintf "%dx%d" r0 (if r0 = 0 then 0 else c0)))
+        | "DG" | "XG" -> let d = take r in
+          let m = if rep = "DM" then c01_dm_assign_diag k zf t0 d else c01_assign_diag_into k zf t0 d in
+          (obs (sm m) (sv d) (dims m), obs (sm (c01s_diag k d)) (sv d) (Printf.sprintf "%dx%d" r r))
+        | "TF" | "TD" -> let w = takem c r in dense (c01_tw_asdense k w) (c01s_transpose k nr w)   (* W is c x r; the source is W^T made by asDense() *)
+        | _ -> let b = takem r c in dense b b)
+     | "DG" ->
+       let t0 = take r in
+       (match rep2 with
+        | "K" -> let m = c01_fill t0 s in (obs (sv m) (show s) (Printf.sprintf "%dx%d" r r), obs (sv (List.map (fun _ -> s) t0)) (show s) (Printf.sprintf "%dx%d" r r))
+        | _ -> let d = take r in (obs (sv (c01_copy_assign t0 d)) (sv d) (Printf.sprintf "%dx%d" r r), obs (sv d) (sv d) (Printf.sprintf "%dx%d" r r)))
+     | _ ->
+       let t = take1 () in
+       (match rep2 with
+        | "K" -> let st = c01_cell_fill [t] O s in (obs (show (List.nth st 0)) (show s) "1x1", obs (show s) (show s) "1x1")
+        | _ -> let v = take1 () in let st = c01_cell_assign k [t; v] O (S O) in
+          (obs (show (List.nth st 0)) (show (List.nth st 1)) "1x1", obs (show v) (show v) "1x1")))
+  | "xasgv" ->
+    let s = take1 () in
+    (match rep with
+     | "FV" | "DV" ->
+       let n0 = if rep = "DV" then p else r in
+       let t0 = take n0 in
+       (match rep2 with
+        | "K" -> let m = c01_fill t0 s in
+          (obs (sv m) (show s) (string_of_int (List.length m)), obs (sv (List.map (fun _ -> s) t0)) (show s) (string_of_int n0))
+        | _ -> let y = take r in
+          let m = (match rep, rep2 with
+            | "FV", "FV" | "DV", "DV" -> c01_copy_assign t0 y
+            | "FV", _ when r = 1 -> c01_fv1_assign k t0 y
+            | _, _ -> c01_vassign k t0 y) in
+          (obs (sv m) (sv y) (string_of_int (List.length m)), obs (sv y) (sv y) (string_of_int r)))
+     | _ ->
+       let t = take1 () in
+       (match rep2 with
+        | "K" -> let st = c01_cell_fill [t] O s in (obs (show (List.nth st 0)) (show s) "1", obs (show s) (show s) "1")
+        | _ -> let v = take1 () in let st = c01_cell_assign k [t; v] O (S O) in
+          (obs (show (List.nth st 0)) (show (List.nth st 1)) "1", obs (show v) (show v) "1")))
   | _ -> ("UNKNOWN-OP", "UNKNOWN-OP")
 
 let parse_z s = z_of_int (int_of_string s)
